@@ -201,3 +201,5 @@ Lemma od_calls_lemma : forall f, od_calls f = modelled_od_calls f.
 Proof. intro f. destruct f; reflexivity. Qed.
 Lemma od_layers_lemma : forallb passthrough od_layers = true.
 Proof. reflexivity. Qed.
+Lemma lb_calls_lemma : forall f, lb_calls f = modelled_lb_calls f.
+Proof. intro f. destruct f; reflexivity. Qed.
